@@ -12,6 +12,10 @@ import (
 func (w *World) beginOp(n *Node, name string) error {
 	w.opCount++
 	w.stats.Ops[name]++
+	if w.mon.DirtyEvery > 0 && len(w.st.OpStoreIDs)+len(w.st.OpRemoveIDs) > 0 {
+		// stores issued between two operations (disposal of returned values) belong to the previous one
+		w.noteStored()
+	}
 	w.st.BeginOp()
 	if n != nil {
 		return w.handle(n)
@@ -32,6 +36,50 @@ func (w *World) endOp() {
 	for _, id := range w.st.OpStoreIDs {
 		w.dirty[id] = struct{}{}
 	}
+	if w.mon.DirtyEvery > 0 {
+		w.noteStored()
+	}
+}
+
+// noteStored records (M-dirty) the content of every slab stored / removed by the operation that just ended.
+func (w *World) noteStored() {
+	for _, id := range w.st.OpRemoveIDs {
+		delete(w.shadow, id)
+	}
+	for _, id := range w.st.OpStoreIDs {
+		s := w.ps.RetrieveIfLoaded(id)
+		if s == nil {
+			delete(w.shadow, id)
+			continue
+		}
+		if b, err := atree.EncodeSlab(s, cborEncMode); err == nil {
+			w.shadow[id] = hashBytes(b)
+		}
+	}
+}
+
+// CheckDirty (M-dirty): a slab that is loaded but was not stored by any operation since its content was recorded
+// must still encode to the recorded bytes. A difference means the library mutated a slab in place without putting
+// it into the write set - the change would be lost (or, worse, selectively kept) after a commit and a reload.
+func (w *World) CheckDirty() error {
+	w.stats.Extra["dirty-checks"]++
+	n := 0
+	for id, want := range w.shadow {
+		s := w.ps.RetrieveIfLoaded(id)
+		if s == nil {
+			continue
+		}
+		b, err := atree.EncodeSlab(s, cborEncMode)
+		if err != nil {
+			return viol("dirty", "loaded slab %s does not encode: %v", id, err)
+		}
+		n++
+		if hashBytes(b) != want {
+			return viol("dirty", "slab %s was changed in place after it was last stored (mutation that never entered the write set)", id)
+		}
+	}
+	w.stats.Extra["dirty-slabs-compared"] += n
+	return nil
 }
 
 func (w *World) checkArrayCount(n *Node, what string) error {
